@@ -382,6 +382,12 @@ def ops_proto(r, n):
         rc = r.choice([12, 0, 8, -1, -2, -3, -4])
         ty = r.choice([0, 0, 3, 8, 10, 4, 255])
         ops.append("proto_fn wait_for_sync %s ; - ; %s ; %s" % (st(s0), ans(0, now, "", s0), ans(rc, 0, "01%02x0000" % ty, sock(state=s0[5]))))
+        # a complete Serial Notify (host byte order, as rtr_receive_pdu leaves it): session and serial equal to / different from the socket's
+        nsid = r.choice([s0[6], s0[6], s0[6] ^ 1])
+        nsn = r.choice([s0[8], s0[8], (s0[8] + 1) % U32, r.randrange(U32)])
+        nbuf = "%02x00%s0c000000%s" % (s0[10], (nsid % 65536).to_bytes(2, "little").hex(), nsn.to_bytes(4, "little").hex())
+        s1 = list(s0)
+        ops.append("proto_fn wait_for_sync %s ; - ; %s ; %s ; %s ; %s" % (st(s0), ans(0, now, "", s0), ans(12, 0, nbuf, s1), ans(0, now + 5, "", s1), ans(0, 0, "", s1)))
         ops.append("proto_fn set_last_update %s ; - ; %s ; %s" % (st(s0), ans(r.choice([0, 0, -1]), r.randrange(10 ** 7), "", s0), ans(0, 0, "", sock(state=7))))
         for q in ("serial_query", "reset_query"):
             ops.append("proto_fn %s %s ; - ; %s ; %s" % (q, st(s0), ans(r.choice([0, 0, -1, 5]), 0, "", s0), ans(0, 0, "", sock(state=8))))
